@@ -863,7 +863,7 @@ fn rand_index(rng: &mut Rng, cap: usize, len: usize) -> usize {
         let k = [8u32, 16, 24, 31, 32, 33, 48, 63][rng.usize_below(8)];
         let d = rng.usize_below(cap + 2);
         let m = 1 + rng.usize_below(3);
-        return if rng.bool() { (1usize << k) - d } else { (1usize << k).wrapping_mul(m).wrapping_add(d) };
+        return if rng.bool() { (1usize << k).wrapping_sub(d) } else { (1usize << k).wrapping_mul(m).wrapping_add(d) };
     }
     match rng.below(20) {
         0 => usize::MAX,
